@@ -229,7 +229,7 @@ class FileStore(BaseEngine):
     name = 'filestore'
 
     def tiers(self, prop):
-        return {'quick': 60_000, 'thorough': 3_000_000}
+        return {'quick': 60_000, 'thorough': 2_500_000}
 
     # ------------------------------------------------------------- generation
     def gen(self, prop, seed, idx, tier):
